@@ -3,7 +3,8 @@ import engine_props
 
 
 def run(chk):
-    engine_props.run_property(chk, "C02", ["C02"])
+    # the witnesses of C02's own open findings run here (classified as KNOWN-FINDING, nothing else is explained by them)
+    engine_props.run_property(chk, "C02", ["C02"], extra_scns=engine_props.open_witnesses("C02"))
 
 
 def replay(chk, path):
